@@ -19,7 +19,6 @@ ASSUMPTIONS = [
     "numpy.linalg.inv returns the inverse (contract InvertOK); IEEE rounding of matrix products within "
     "1e-9*(1+prod of spectral norms of the letters)",
     "ASCII generator names (str.lower/upper)",
-    "Fox calculus / differential only for parse_simple representations (utils.words works character by character)",
 ]
 
 
@@ -52,6 +51,9 @@ def run_words(inp):
          "inv": [W.invert_gen(x) for x in NAMES if x.isascii()],
          "fox": H.guard(lambda: {k: int(v) for k, v in W.fox_word_derivative(g, w).items()})}
     rep = R.Representation(parse_simple=False)
+    names = ["a1", "b", "A1", "B", "cc"]
+    tw = tuple(names["abABc".index(c) if c in "abABc" else 4] for c in w)
+    o["foxt"] = H.guard(lambda: [[list(k), int(v)] for k, v in W.fox_word_derivative("a1", tw).items()])
     o["parse"] = [list(rep.parse_word(w, simple=True)), rep.parse_word("*".join(w) + "*(" + u + ")", simple=False),
                   rep.parse_word(u, simple=False)]
     val = []
@@ -73,6 +75,8 @@ def lean_words(inp, obs):
     for nm in NAMES:
         if nm.isascii():
             ops += [{"op": "c05.invgen", "g": nm}, {"op": "c05.valid", "g": nm}]
+    names = ["a1", "b", "A1", "B", "cc"]
+    ops.append({"op": "c05.fox", "g": "a1", "wl": [names["abABc".index(c) if c in "abABc" else 4] for c in w]})
     return ops
 
 
@@ -89,9 +93,15 @@ def judge_words(inp, obs, lr):
         if lr[3].get("err") != H.exc_name(fox):
             return {"expected": lr[3], "observed": fox, "tags": {"fn": "fox", "err": True}}
     else:
-        model = {k: int(c) for k, c in lr[3]["ok"]}
+        model = {"".join(k): int(c) for k, c in lr[3]["ok"]}
         if model != fox:
             return {"expected": model, "observed": fox, "tags": {"fn": "fox"}}
+    ft, mt = obs["foxt"], lr[-1]
+    if "err" in mt or H.exc_name(ft):
+        if mt.get("err") != H.exc_name(ft):
+            return {"expected": mt, "observed": ft, "tags": {"fn": "fox", "tuple_words": True, "err": True}}
+    elif {tuple(k): int(c) for k, c in mt["ok"]} != {tuple(k): v for k, v in ft}:
+        return {"expected": mt["ok"], "observed": ft, "tags": {"fn": "fox", "tuple_words": True}}
     for k in range(3):
         if ok(4 + k) != obs["parse"][k]:
             return {"expected": ok(4 + k), "observed": obs["parse"][k], "tags": {"fn": "parse_word", "k": k}}
@@ -212,8 +222,6 @@ def gen_derived(rng, n):
         nmax = {"tensor": 3, "sym2": 4, "gln_adjoint": 3, "sln_adjoint": 3}.get(kind, 5)
         dim = rng.randint(2 if kind == "sln_adjoint" else 1, nmax)
         simple = rng.random() < 0.7
-        if kind == "subgroup_noinv":
-            simple = True      # formal_inverse is character based (multi-character names: known limitation)
         spec = H.rand_spec(rng, ring=ring, simple=simple, n=dim, names=H.rand_names(rng, simple, rng.randint(1, 3)))
         alph = H.spec_names(spec)
         inp = {"kind": kind, "spec": spec}
@@ -322,18 +330,25 @@ def judge_derived(inp, obs, lr):
 # =====================================================================================
 # corr: Fox calculus on representations
 # =====================================================================================
+FOX_NAMES = [(True, "a"), (True, "ab"), (True, "abc"), (True, "abcd"), (True, "xy"),
+             (False, ["a1", "b1"]), (False, ["x", "yy", "zzz"]), (False, ["gen"]), (False, ["s1", "s2", "s3", "s4"]),
+             (False, ["a", "ab", "b"])]
+
+
 def gen_fox(rng, n):
     for i in range(n):
         ring = rng.choice(["Q", "Q", "Z"])
-        names = list(rng.choice(["a", "ab", "abc", "abcd", "xy"]))
-        spec = H.rand_spec(rng, ring=ring, simple=True, n=rng.randint(1, 4), names=names, reassign=rng.random() < 0.3,
+        simple, names = rng.choice(FOX_NAMES)
+        names = list(names)
+        spec = H.rand_spec(rng, ring=ring, simple=simple, n=rng.randint(1, 4), names=names, reassign=rng.random() < 0.3,
                            kind=rng.choice(["uni", "orth", "diag"]))
         alph = H.spec_names(spec)
-        rels = ["".join(H.rand_letters(rng, alph, rng.choice([1, 2, 3, 4, 6, 9, 14]))) for _ in range(rng.randint(1, 3))]
+        rl = [H.rand_letters(rng, alph, rng.choice([1, 2, 3, 4, 6, 9, 14])) for _ in range(rng.randint(1, 3))]
         if rng.random() < 0.1:
-            rels.append("")        # IndexError
-        spec["relations"] = rels
-        yield {"spec": spec, "w": rng.choice(rels), "g": rng.choice(alph)}
+            rl.append([])        # IndexError
+        spec["relations"] = [H.join_word(r, simple) for r in rl]
+        k = rng.randrange(len(rl))
+        yield {"spec": spec, "w": spec["relations"][k], "g": rng.choice(alph), "rl": rl}
 
 
 def run_fox(inp):
@@ -343,7 +358,7 @@ def run_fox(inp):
            "diffat": H.guard(lambda: np.asarray(rep.differential(inp["w"], generator=inp["g"]), dtype=float).tolist()),
            "cocycle": H.guard(lambda: np.asarray(rep.cocycle_matrix(), dtype=float).tolist()),
            "coboundary": H.guard(lambda: np.asarray(rep.coboundary_matrix(), dtype=float).tolist()),
-           "bound": max(H.norm_bound(rep, list(r)) for r in inp["spec"]["relations"]) * 20}
+           "bound": max(H.norm_bound(rep, r) for r in inp["rl"]) * 20}
     return out
 
 
@@ -461,7 +476,7 @@ def gen_dor(rng, n):
         alph = H.spec_names(spec)
         yield {"kind": kind, "spec": spec, "w": H.rand_letters(rng, alph, rng.choice([0, 1, 2, 4, 7])),
                "C": H.enc(H.gen_matrix(rng, dim, "Q")), "sub": [H.rand_letters(rng, alph, rng.randint(1, 3)) for _ in range(2)],
-               "other": [H.enc(H.gen_matrix(rng, 2, "Q")) for _ in spec["hist"]]}
+               "other": [H.enc(H.gen_matrix(rng, 2, "Q")) for _ in spec["hist"]], "sub_inv": rng.random() < 0.5}
 
 
 def _sym2_ref(A):
@@ -515,7 +530,7 @@ def run_dor(inp):
         got, want = got @ coords, (Y.reshape(-1) if kind == "gln_adjoint" else Y.reshape(-1)[:-1])
     elif kind == "subgroup":
         subw = [H.join_word(s, simple) for s in inp["sub"]]
-        d = rep.subgroup(subw)
+        d = rep.subgroup(subw, compute_inverse=inp.get("sub_inv", True))
         got = np.asarray(d["abA"])
         want = np.asarray(rep[subw[0]]) @ np.asarray(rep[subw[1]]) @ np.linalg.inv(np.asarray(rep[subw[0]], dtype=float))
     elif kind == "astype":
@@ -541,6 +556,8 @@ def run_dor(inp):
 
 def judge_dor(inp, obs, lr):
     tags = {"kind": inp["kind"], "simple": inp["spec"]["simple"], "ring": inp["spec"]["ring"]}
+    if inp["kind"] == "subgroup":
+        tags["compute_inverse"] = inp.get("sub_inv", True)
     if "exc" in obs:
         return {"expected": "derived representation evaluates", "observed": obs, "tags": dict(tags, exc=obs["exc"])}
     if not obs["err"] <= 1e-8:
@@ -553,10 +570,11 @@ def judge_dor(inp, obs, lr):
 # =====================================================================================
 def gen_foxo(rng, n):
     for i in range(n):
-        names = list(rng.choice(["a", "ab", "abc", "abcd"]))
+        simple, names = rng.choice(FOX_NAMES[:4] + FOX_NAMES[5:])
+        names = list(names)
         dim = rng.randint(1, 4)
         mode = rng.choice(["free", "commuting", "torsion"])
-        spec = H.rand_spec(rng, ring=rng.choice(["Q", "Z"]) if mode == "free" else "Q", simple=True, n=dim, names=names,
+        spec = H.rand_spec(rng, ring=rng.choice(["Q", "Z"]) if mode == "free" else "Q", simple=simple, n=dim, names=names,
                            reassign=False, kind=rng.choice(["uni", "orth", "diag"]))
         rels = []
         if mode == "commuting" and len(names) >= 2:
@@ -567,16 +585,16 @@ def gen_foxo(rng, n):
                 P = H.fmul(P, M)
                 h["m"] = H.enc(P)
             a, b = names[0], names[1]
-            rels = [a + b + a.upper() + b.upper(), b + a + b.upper() + a.upper()]
+            rels = [[a, b, H.swapcase(a), H.swapcase(b)], [b, a, H.swapcase(b), H.swapcase(a)]]
         elif mode == "torsion" and dim >= 2:
             # a rational rotation by 90 degrees in the first two coordinates: a^4 = 1
             M = H.fident(dim)
             M[0][0], M[0][1], M[1][0], M[1][1] = F(0), F(-1), F(1), F(0)
             spec["hist"][0]["m"] = H.enc(M)
-            rels = [names[0] * 4, names[0].upper() * 4]
-        spec["relations"] = rels
+            rels = [[names[0]] * 4, [H.swapcase(names[0])] * 4]
+        spec["relations"] = [H.join_word(r, simple) for r in rels]
         alph = H.spec_names(spec)
-        yield {"spec": spec, "w": "".join(H.rand_letters(rng, alph, rng.choice([1, 2, 3, 5, 8, 13, 21]))),
+        yield {"spec": spec, "w": H.rand_letters(rng, alph, rng.choice([1, 2, 3, 5, 8, 13, 21])),
                "cplx": rng.random() < 0.25 and spec["ring"] == "Q", "phase": [1, 2]}
 
 
@@ -584,13 +602,13 @@ def run_foxo(inp):
     rep = _cbuild(inp) if inp["cplx"] and not inp["spec"]["relations"] else H.build_rep(inp["spec"])
     rep.relations = list(inp["spec"]["relations"])
     n = inp["spec"]["n"]
-    w = inp["w"]
+    w = H.join_word(inp["w"], inp["spec"]["simple"])
     I = np.eye(n)
     gens = list(rep.asym_gens())
     D = np.asarray(rep.differential(w))
     lhs = np.asarray(rep[w]) - I
     rhs = sum(D[:, k * n:(k + 1) * n] @ (np.asarray(rep[g]) - I) for k, g in enumerate(gens))
-    b = H.norm_bound(rep, list(w)) * 10
+    b = H.norm_bound(rep, inp["w"]) * 10
     out = {"fundamental": float(np.max(np.abs(lhs - rhs))) / (1 + b), "shape_ok": D.shape == (n, n * len(gens))}
     # D @ coboundary = I - rho(w)
     cb = np.asarray(rep.coboundary_matrix())
@@ -601,19 +619,23 @@ def run_foxo(inp):
         out["satisfied"] = sat
         out["cocycle_coboundary"] = float(np.max(np.abs(cc @ cb)))
         out["cc_shape_ok"] = cc.shape == (n * len(rep.relations), n * len(gens))
+        # the relations are satisfied by construction: a cocycle matrix that is identically zero is suspicious
+        # only if the differentials themselves are not (checked by the fundamental formula above)
     return out
 
 
 def judge_foxo(inp, obs, lr):
+    ps = {"parse_simple": inp["spec"]["simple"], "site": "Representation.differential"}
     if "exc" in obs:
-        return {"expected": "differential evaluates", "observed": obs, "tags": {"exc": obs["exc"]}}
+        return {"expected": "differential evaluates", "observed": obs, "tags": dict(ps, exc=obs["exc"])}
     if not obs["shape_ok"] or not obs.get("cc_shape_ok", True):
-        return {"expected": "block shapes", "observed": obs, "tags": {"shape": True}}
+        return {"expected": "block shapes", "observed": obs, "tags": dict(ps, shape=True)}
     for k in ("fundamental", "coboundary"):
         if not obs[k] <= 1e-8:
-            return {"expected": "rho(w) - I = sum_g D_g(w) (rho(g) - I)", "observed": obs, "tags": {"law": k}}
+            return {"expected": "rho(w) - I = sum_g D_g(w) (rho(g) - I)", "observed": obs, "tags": dict(ps, law=k)}
     if "cocycle_coboundary" in obs and obs["satisfied"] <= 1e-9 and not obs["cocycle_coboundary"] <= 1e-7:
-        return {"expected": "cocycle_matrix @ coboundary_matrix = 0 for satisfied relations", "observed": obs, "tags": {"law": "cocycle"}}
+        return {"expected": "cocycle_matrix @ coboundary_matrix = 0 for satisfied relations", "observed": obs,
+                "tags": dict(ps, law="cocycle")}
     return None
 
 
